@@ -298,14 +298,6 @@ func NewMachine(prog *ssa.Program, stats *SolverStats, tmpDir string, incMs, sho
 		i.runtimeErrorString = runtimePkg.Type("errorString").Object().Type()
 	}
 	initReflect(i)
-	for _, pkg := range prog.AllPackages() {
-		for _, m := range pkg.Members {
-			if g, ok := m.(*ssa.Global); ok {
-				cell := zero(mustDeref(g.Type()))
-				i.globals[g] = &cell
-			}
-		}
-	}
 	i.ex = &Explorer{stats: stats}
 	i.ex.solver = NewSolver(stats, tmpDir, incMs, shotSec)
 	return &Machine{i: i}
@@ -320,9 +312,23 @@ func (m *Machine) Solver() *Solver { return m.i.ex.solver }
 func (m *Machine) resetGlobals(root *ssa.Package) {
 	i := m.i
 	for g, cell := range i.globals {
+		if g.Pkg != nil && !InitAllowed(g.Pkg.Pkg.Path()) && !touchedOutsideInit(g) {
+			continue // never initialised by us, still zero
+		}
 		*cell = zero(mustDeref(g.Type()))
 	}
 	call(i, nil, token.NoPos, root.Func("init"), nil)
+}
+
+// touchedOutsideInit: globals of packages whose init we skip can still be
+// written by interpreted code of that package (rare); be conservative for
+// small ones and skip only the big read-only tables.
+func touchedOutsideInit(g *ssa.Global) bool {
+	switch t := mustDeref(g.Type()).Underlying().(type) {
+	case *types.Array:
+		return t.Len() <= 64
+	}
+	return true
 }
 
 // Explore runs harness fn (a func()) over all paths of run, as one of
